@@ -317,6 +317,7 @@ def main(mod, argv=None):
         "skipped": skipped,
         "known_findings_seen": {k: v[0] for k, v in known_hit.items()},
         "unlisted_violations": len(unlisted),
+        "unlisted_violation_keys": _count_keys(unlisted),
         "workers": workers,
         "components": getattr(mod, "COMPONENTS", {}),
         "harness_errors": len(harness),
@@ -331,6 +332,13 @@ def main(mod, argv=None):
         print(ln)
     sys.stdout.flush()
     return rc
+
+
+def _count_keys(unlisted):
+    d = {}
+    for fam, idx, v in unlisted:
+        d[str(v.get("key"))] = d.get(str(v.get("key")), 0) + 1
+    return d
 
 
 def _replay(mod, path):
